@@ -319,7 +319,7 @@ fn command() -> clap::Command {
 }
 
 /// argv -> Config, as `_main` in main.rs does up to `operation.run`.
-fn build(argv: &[OsString], cur_dir: &Path) -> Result<Config, String> {
+pub(crate) fn build(argv: &[OsString], cur_dir: &Path) -> Result<Config, String> {
     let matches = command().try_get_matches_from(argv).map_err(|e| format!("command line: {:?}", e.kind()))?;
     let mut config = Config::from_arg_matches(&matches, cur_dir)
         .map_err(|_| "Config::from_arg_matches failed".to_string())?;
